@@ -9,7 +9,7 @@ import numpy as np
 PROPERTY = "C16"
 RULE = ("The harness writes CML documents of the Avogadro flavour (molecule/atomArray/atom[id,elementType,x3,y3,z3], "
         "bondArray/bond[atomRefs2,order], optional extra attributes, optional XML declaration, with or without "
-        "bondArray) from a known atom and bond list: 1-40 atoms; id schemes a1..an in order, shuffled, non-sequential, "
+        "bondArray; the molecule as document root or inside <cml>, <list>, <cml><list> or an outer <molecule>) from a known atom and bond list: 1-40 atoms; id schemes a1..an in order, shuffled, non-sequential, "
         "arbitrary strings; bond lists empty / random / reversed references; coordinates of any sign and magnitude "
         "written as decimals, integers or exponents. The real loader's result is compared with the list; loading "
         "from a path (str and pathlib), from an open file and through Atoms.load(..., 'cml') must agree. The "
@@ -105,6 +105,15 @@ def build(rng, case):
             lines.append('  <bond atomRefs2="%s%s%s" order="%s"/>' % (ids[i], sep, ids[j], order))
         lines.append(" </bondArray>")
     lines.append("</molecule>")
+    # the molecule inside the wrappers CML documents come in (no namespace declaration, as in the repository's own files)
+    wrap = int(rng.integers(5))
+    case["_wrap"] = ["molecule-is-root", "cml", "list", "cml/list", "molecule-in-molecule"][wrap]
+    if wrap:
+        head = [l for l in lines if l.startswith("<?xml")]
+        body = [l for l in lines if not l.startswith("<?xml")]
+        open_, close_ = {1: (["<cml>"], ["</cml>"]), 2: (['<list title="molecules">'], ["</list>"]), 3: (["<cml>", " <list>"], [" </list>", "</cml>"]),
+                         4: (['<molecule id="outer">'], ["</molecule>"])}[wrap]
+        lines = head + open_ + ["  " + l for l in body] + close_
     return "\n".join(lines) + "\n", els, [[float(v) for v in c] for c in coords], [(i, j) for i, j, _ in bonds], ids
 
 
@@ -199,6 +208,9 @@ def run_case(case, ctx):
         st.count("loads_checked")
     st.count("documents")
     st.seen("id_scheme", case["ids"])
+    st.seen("document_wrapper", case.get("_wrap"))
+    if bonds:
+        st.seen("document_wrapper_with_bonds", case.get("_wrap"))
     st.seen("bond_class", case["bonds"] + ("/empty" if not bonds else ""))
     st.seen("n_atoms", len(els))
     if len(bonds) == 0:
@@ -213,6 +225,8 @@ def requirements(stats, tier):
     need = []
     if stats.get("loads_checked") < (1500 if tier == "quick" else 500000):
         need.append("too few loads observed: %d" % stats.get("loads_checked"))
+    if stats.nseen("document_wrapper_with_bonds") < 5:
+        need.append("document wrappers observed with bonds: %s" % sorted(stats.sets.get("document_wrapper_with_bonds", [])))
     if stats.nseen("id_scheme") < 5:
         need.append("not all id schemes observed")
     if stats.get("documents_without_bonds") < 20:
